@@ -96,20 +96,35 @@ def _fresh_n():
 def _inline_one(fj, helpers):
     """Inline the first eligible call found in fj; True if something changed."""
     cfg = fj["cfg"]
-    for b in cfg["blocks"]:
-        for i, e in enumerate(b.get("elems", [])):
-            call = None
-            for x in _walk(e):
-                if x.get("k") == "Call" and x.get("fn") in helpers and x["fn"] != fj["name"]:
-                    call = x
-                    break
-            if call is None:
-                continue
-            if fj.setdefault("_inl_depth", 0) > MAXDEPTH * 10:
-                return False
-            fj["_inl_depth"] += 1
-            _do_inline(fj, b, i, e, call, helpers[call["fn"]])
-            return True
+
+    def bare(e):
+        while isinstance(e, dict) and e.get("k") in ("ICast", "Cast", "Paren"):
+            e = e["a"][0]
+        return e
+    # the CFG lists every call as an element of its own, at the point where it is evaluated, and again inside the
+    # expressions that use its value (possibly in a later block: `return f(x) ? a : b`): the body goes where the call
+    # itself stands.  Calls whose arguments contain another helper call wait until that one has been dealt with.
+    for want_top in (True, False):
+        for b in cfg["blocks"]:
+            for i, e in enumerate(b.get("elems", [])):
+                call = None
+                if want_top:
+                    x = bare(e)
+                    if isinstance(x, dict) and x.get("k") == "Call" and x.get("fn") in helpers and x["fn"] != fj["name"] and \
+                            not any(y.get("k") == "Call" and y.get("fn") in helpers for a_ in x.get("a", ()) for y in _walk(a_)):
+                        call = x
+                else:
+                    for x in _walk(e):
+                        if x.get("k") == "Call" and x.get("fn") in helpers and x["fn"] != fj["name"]:
+                            call = x
+                            break
+                if call is None:
+                    continue
+                if fj.setdefault("_inl_depth", 0) > MAXDEPTH * 10:
+                    return False
+                fj["_inl_depth"] += 1
+                _do_inline(fj, b, i, e, call, helpers[call["fn"]])
+                return True
     return False
 
 
